@@ -55,6 +55,21 @@ Three further dimensions (session 4):
    batteries (ev.charge what-if, ev.reset, battery.charge, battery.reset) — no attribute assignment: the copies must not
    share the battery with the real EV.
 
+Two further classes of legal use (session 10):
+ * `noops`: EVENTS THAT CHANGE NOTHING.  An UnplugEvent queued by the user through the public API (constructor queue or
+   add_event) for a session BEFORE its departure (early departure: the UnplugEvent the simulator queues itself at `ev.departure`
+   then finds the station empty, or another EV), for a session that has left, for an EV that never arrived; `network` =
+   "stochastic": the contrib StochasticNetwork, where the departure of an EV that is still WAITING changes no station.  Each is
+   an event of its period: the scheduler must be invoked there although the network did not change (oracle: the timestamp-only
+   reference; most of these periods have no other event and max_recompute is None or 7).  Model: `Sim.Cfg` cannot express a
+   user-queued UnplugEvent; one that detaches nobody (ghost / after) is handed over as a RecomputeEvent of the same timestamp,
+   early departures and the StochasticNetwork are judged by the oracle alone.
+ * `clone` / `interrupt.how == "copy"`: COPIED SIMULATORS.  `copy.deepcopy(sim)` of a not-yet-run simulator, of one driven by
+   step() for a prefix, of one whose run() was aborted by the scheduler; run() on the COPY.  At every invocation the copy's
+   scheduler must see the COPY's period, datetime, sessions, rates (same-moment ground truth read from the copy); the copy's
+   trajectory and views == those of the identically built simulator that was never copied; the ORIGINAL, completed after the
+   copy has finished, goes through the same history with the same views (neither disturbs the other).
+
 `Interface.get_constraints()` returns the network's live arrays BY DESIGN (DESIGN §8) — not attacked, but READ at
 every invocation and judged like the InfrastructureInfo.
 `Interface.infrastructure_info()` used to raise on a constraint-free network (defect F3, property C06,
@@ -73,7 +88,7 @@ import numpy as np
 from acnportal.acnsim.network.current import Current
 from acnportal.acnsim.network.charging_network import ChargingNetwork
 from acnportal.acnsim.simulator import Simulator
-from acnportal.acnsim.events import Event, EventQueue, PluginEvent, RecomputeEvent
+from acnportal.acnsim.events import Event, EventQueue, PluginEvent, RecomputeEvent, UnplugEvent
 
 from core import simcase as S
 from core import impl as I
@@ -142,6 +157,18 @@ ASSUMPTIONS = ["trigger theorems: none on the configuration (any sessions, times
                "processed late, at iteration 1 (SimStep.lean; not part of any property): prefixes over such scenarios, and prefixes "
                "combined with ignored-type events or stages, are outside the oracle's closed form (model + same-moment ground truth "
                "only); the theorems `step_then_run_invoked` carry the corresponding hypothesis `NoOverdue`",
+               "events that change nothing (noops): the oracle's reference counts EVERY processed UnplugEvent as an event of its period, "
+               "whether or not somebody was detached (timestamp-only rule); occupancy / trajectory are judged on the layout that actually "
+               "takes place (a session ends at the first user-queued UnplugEvent inside its stay); Sim.Cfg has no field for a user-queued "
+               "UnplugEvent: one that detaches nobody (never arrived / already gone) is handed to the model as a RecomputeEvent of the same "
+               "timestamp (same effect on `_resolve` and the network; the precedence inside the period and `_last_schedule_update`, which "
+               "the invocation of the same period overwrites, differ — hence not with interruptions, step() prefixes or aborted runs), early "
+               "departures and the contrib StochasticNetwork (random station, waiting queue; random.choice seeded per case) are judged by "
+               "the oracle alone (invocation rule, same-moment ground truth, vandalised == clean), not combined with staged runs",
+               "copied simulators: copy.deepcopy only (copy.copy of the scheduler is out of scope); the recording / failing hooks of the "
+               "harness are plain functions (copied atomically) that read the simulator the harness is CURRENTLY driving; the original of "
+               "the FIRST copy is completed after the copy has finished (noise stream and occupancy log rewound to the moment of the copy), "
+               "not for staged runs; the model speaks about the uncopied run (a copy is the identity on the state)",
                "vandal = \"methods\": only state-changing METHODS of the active_evs copies and of their batteries are called (no "
                "attribute assignment); the default vandal does both"]
 RULE = ("simcase scenario (1-6 stations, 0-25 sessions, back-to-back reuse, simultaneous events) x max_recompute in "
@@ -182,6 +209,13 @@ RULE = ("simcase scenario (1-6 stations, 0-25 sessions, back-to-back reuse, simu
         "x vandal restricted to state-changing METHODS of the active_evs copies and their batteries in 1 of 3 cases; "
         "thorough: every 7th exhaustive layout interrupted (cycling periods, alternately in place / JSON), every 11th with a step() "
         "prefix of 1-3 calls; "
+        "x EVENTS THAT CHANGE NOTHING in 6 of 25 cases (1-3 user-queued UnplugEvents: 50% an early departure — 70% in a period without any "
+        "other event, 40% with ANOTHER session taking the station before the nominal departure, so that the automatic UnplugEvent finds "
+        "it —, 20% a second unplug after the session has left, 30% for an EV that never arrived; constructor queue 60% / add_event; "
+        "max_recompute None or 7 in 3 of 4) + every 50th case on the contrib StochasticNetwork (1-2 stations, 3-6 overlapping sessions: "
+        "waiting EVs leave without ever being connected or are swapped in) + 24 corpus cases; "
+        "x COPIED SIMULATORS in 8 of 25 cases (deepcopy before the first run() / after the step() prefix: 4 of 25; after every abort, "
+        "interrupt.how = copy: the interrupted cases of 4 residues; the original completed afterwards; an uncopied twin) + 20 corpus cases; "
         "non-trivial = >=3 invocations, at least one triggered by max_recompute alone or at least one period without "
         "invocation, and >=1 view with an active session; distinct by hash of the case")
 
@@ -536,6 +570,33 @@ class GuardNet(S.SnapshotNetwork):
 
 _NET = {"occ": [], "limit": 10 ** 9, "on_period": None}
 
+_STOCH = {}
+
+
+def _stoch_guard_cls():
+    """GuardNet over the contrib StochasticNetwork (random assignment to a free station, waiting queue)"""
+    if "cls" not in _STOCH:
+        from acnportal.contrib.acnsim.network.stochastic_network import StochasticNetwork
+
+        class StochGuardNet(StochasticNetwork):
+            limit = 10 ** 9
+            on_period = None
+
+            def __init__(self, *a, **k):
+                super().__init__(*a, **k)
+                self.occ_log = []
+
+            def post_charging_update(self):
+                super().post_charging_update()
+                self.occ_log.append([(e.ev.session_id if e.ev is not None else None) for e in self._EVSEs.values()])
+                if len(self.occ_log) > self.limit:
+                    raise Runaway(f"still running in period {len(self.occ_log)}")
+                if self.on_period is not None:
+                    self.on_period(len(self.occ_log) - 1)
+
+        _STOCH["cls"] = StochGuardNet
+    return _STOCH["cls"]
+
 
 class JGuardNet(ChargingNetwork):
     """GuardNet WITHOUT instance attributes (log, limit and callback live in the module-level `_NET`), so that to_json /
@@ -781,9 +842,55 @@ def _stage_of(case, ts):
     return sum(1 for T in _splits(case) if T <= ts)
 
 
+# ------------------------------------------------------------------ events that change nothing / copied simulators
+#
+# case["noops"] = [{"kind": "early", "session": sid, "t": ts, "when": "ctor" | "added"}      UnplugEvent(ts, <the EV of sid>) queued
+#                    by the USER, arrival < ts < departure: the EV leaves at ts; the UnplugEvent the simulator queues itself
+#                    at `ev.departure` then finds the station empty, or another EV (a session of the case that starts there
+#                    after ts) — an event of that period all the same;
+#                  {"kind": "after", "session": sid, "t": ts > departure, …}                  the same for a session that has left;
+#                  {"kind": "ghost", "session": "g…", "station": st, "t": ts, …}              UnplugEvent for an EV that never arrived]
+# case["network"] = "stochastic": the contrib StochasticNetwork (more simultaneous sessions than stations: the surplus WAITS;
+#                    the departure of an EV that is still waiting changes no station and is an event of its period).
+# case["clone"] = "pre" | "steps": the harness replaces the simulator by `copy.deepcopy(sim)` before the first run() / after
+#                    the step() prefix and goes on with the COPY; `interrupt.how == "copy"`: after every abort.  The original is
+#                    run to completion afterwards, too (obs["orig"]).
+
+
+def _noops(case):
+    return case.get("noops") or []
+
+
+def _stoch(case):
+    return case.get("network") == "stochastic"
+
+
+def _clone(case):
+    return case.get("clone") or None
+
+
+def _effective_sessions(case):
+    """the sessions with the departure that actually takes place: the first user-queued UnplugEvent inside the stay"""
+    out = []
+    for s in case["sessions"]:
+        ts = [int(n["t"]) for n in _noops(case) if n["kind"] == "early" and n["session"] == s["session"] and s["arrival"] < int(n["t"]) < s["departure"]]
+        out.append(dict(s, departure=min(ts)) if ts else s)
+    return out
+
+
+def _layout_ok(case):
+    """`Valid` on the layout that actually takes place (early departures applied); for the StochasticNetwork the stations of
+    the case are not binding (random assignment, waiting queue): distinct ids, 0 <= arrival < departure, recomputes >= 0"""
+    if _stoch(case):
+        ids = [s["session"] for s in case["sessions"]]
+        return len(set(ids)) == len(ids) and all(0 <= s["arrival"] < s["departure"] for s in case["sessions"]) \
+            and all(int(r) >= 0 for r in case.get("recomputes", []))
+    return S.is_valid_layout(dict(case, sessions=_effective_sessions(case)) if _noops(case) else case)
+
+
 def _known_ts(case, with_others=False):
     ts = [s["arrival"] for s in case["sessions"]] + [s["departure"] for s in case["sessions"]] + \
-        [int(r) for r in case.get("recomputes", [])]
+        [int(r) for r in case.get("recomputes", [])] + [int(n["t"]) for n in _noops(case)]
     if with_others:
         ts += [int(o["t"]) for o in _others(case)]
     return ts
@@ -797,7 +904,8 @@ def _stage_horizons(case):
         ts = [s["arrival"] for s in case["sessions"] if _stage_of(case, s["arrival"]) <= k] + \
              [s["departure"] for s in case["sessions"] if _stage_of(case, s["arrival"]) <= k] + \
              [int(r) for r in case.get("recomputes", []) if _stage_of(case, int(r)) <= k] + \
-             [int(o["t"]) for o in _others(case) if _stage_of(case, int(o["t"])) <= k]
+             [int(o["t"]) for o in _others(case) if _stage_of(case, int(o["t"])) <= k] + \
+             [int(n["t"]) for n in _noops(case) if _stage_of(case, int(n["t"])) <= k]
         out.append(max(ts) + 1 if ts else 0)
     return out
 
@@ -816,7 +924,9 @@ def is_valid(case):
         # iteration 1 (SimStep.lean; not part of any property) — such prefixes are judged by the model and the same-moment
         # ground truth only
         return False
-    return S.is_valid_layout(case) and all(int(o["t"]) >= 0 for o in _others(case)) and staging_ok(case)
+    if _noops(case) and (_splits(case) or any(int(n["t"]) < 0 for n in _noops(case))):
+        return False          # (not generated: a user-queued UnplugEvent withheld for a later run())
+    return _layout_ok(case) and all(int(o["t"]) >= 0 for o in _others(case)) and staging_ok(case)
 
 
 def _bound(case):
@@ -826,7 +936,7 @@ def _bound(case):
 def _build(case, hooks):
     """simcase.build_sim + C05's extra dimensions: ignored-type events (constructor queue or add_event right
     after construction) and events withheld for a later run() (returned per stage, queue insertion order)."""
-    net = (hooks.network_cls or S.SnapshotNetwork)()
+    net = (_stoch_guard_cls() if _stoch(case) else (hooks.network_cls or S.SnapshotNetwork))()
     for st in case["stations"]:
         net.register_evse(I.make_evse(st["kind"], st["id"]), I.num(st["V"]), I.num(st.get("phase", 0)))
     con = case.get("constraint")
@@ -837,6 +947,17 @@ def _build(case, hooks):
     staged = [[] for _ in range(n)]
     for ev in evs:
         staged[_stage_of(case, ev.arrival)].append(PluginEvent(ev.arrival, ev))
+    added_noops = []
+    for n_ in _noops(case):
+        # the user's own UnplugEvent (public API: UnplugEvent(timestamp, ev) in the queue handed to the constructor, or
+        # event_queue.add_event afterwards) for an EV of the case, or for an EV that never arrives
+        if n_["kind"] == "ghost":
+            ev = I.make_ev({"session": n_["session"], "station": n_["station"], "arrival": max(int(n_["t"]) - 2, 0),
+                            "departure": int(n_["t"]), "requested": 5.0, "batt": _b(), "est": None})
+        else:
+            ev = next(e for e in evs if e.session_id == n_["session"])
+        k = _stage_of(case, int(n_["t"]))
+        (added_noops if (k == 0 and n_.get("when") == "added") else staged[k]).append(UnplugEvent(int(n_["t"]), ev))
     for r in case.get("recomputes", []):
         staged[_stage_of(case, int(r))].append(RecomputeEvent(int(r)))
     added0 = []
@@ -845,7 +966,7 @@ def _build(case, hooks):
         (added0 if (k == 0 and o.get("when") == "added") else staged[k]).append(_make_other(o))
     algo = S.make_scheduler(case, hooks)
     sim = Simulator(net, algo, EventQueue(staged[0]), S.START, period=I.num(case["period"]), verbose=False)
-    for e in added0:
+    for e in added0 + added_noops:
         sim.event_queue.add_event(e)
     return sim, {"network": net, "scheduler": algo, "evs": evs, "hooks": hooks}, staged[1:]
 
@@ -859,6 +980,16 @@ def _one_run(case, vandal, plain=False):
     sp = _step_prefix(case)
     special = bool(_interrupt(case) or sp)
     mode = case.get("vandal")
+    cl = None if plain else _clone(case)
+    if cl == "pre" and sp:
+        cl = "steps"          # (a step() prefix is driven by the harness: the copy is taken after it)
+    box["views"] = views
+    rnd_state = None
+    if _stoch(case):
+        # StochasticNetwork.plugin draws the station with random.choice: the same draws in every run of the case
+        import random as _random
+        rnd_state = _random.getstate()
+        _random.seed(len(case["sessions"]) * 7919 + len(case["stations"]))
 
     def rewound(f):
         # the vandal charges EV *copies*; with a noisy battery that calls numpy.random.normal, the
@@ -870,12 +1001,12 @@ def _one_run(case, vandal, plain=False):
             box["ns"]["k"] = k0
 
     def before(algo, iface, sessions):
-        views.append(_record(algo, iface, sessions, box["sim"], box["ctx"]))
+        box["views"].append(_record(algo, iface, sessions, box["sim"], box["ctx"]))
 
     def after(algo, iface, sessions, schedule):
         r = rewound(lambda: _vandalise(algo, iface, sessions, schedule, mode)) if vandal else None
         # the same questions asked AGAIN before schedule() returns (after the vandal, if there is one)
-        views[-1]["requery"] = _record(algo, iface, None, box["sim"], box["ctx"], light=True)
+        box["views"][-1]["requery"] = _record(algo, iface, None, box["sim"], box["ctx"], light=True)
         return r
 
     def ask_outside(when):
@@ -948,6 +1079,28 @@ def _one_run(case, vandal, plain=False):
 
         pending_fail = set(hooks.fail_at)
 
+        def clone(where):
+            """copy.deepcopy(simulator): the harness goes on with the COPY; the (first) original is kept as it is and
+            run to completion after the copy has finished"""
+            old, octx = box["sim"], box["ctx"]
+            with warnings.catch_warnings():
+                warnings.simplefilter("ignore")
+                new = copy.deepcopy(old)
+            by = S._all_evs_of(new)
+            nctx = dict(octx, network=new.network, scheduler=new.scheduler, evs=[by.get(ev.session_id, ev) for ev in octx["evs"]],
+                        applied=list(octx["applied"]), edit_errors=list(octx["edit_errors"]))
+            if "orig" not in box:
+                box["orig"] = {"sim": old, "ctx": octx, "nviews": len(views), "noise": box["ns"]["k"], "where": where,
+                               "occ": [list(r) for r in _NET["occ"]], "pending": set(pending_fail)}
+            box["sim"], box["ctx"] = new, nctx
+            lu = lambda x: None if x._last_schedule_update is None else int(x._last_schedule_update)  # noqa: E731
+            own = [e for e in by.values() if any(e is x for x in S._all_evs_of(old).values())]
+            return {"same_object": new is old or new.network is old.network or new.scheduler is old.scheduler
+                    or new.event_queue is old.event_queue or bool(own),
+                    "iter": [int(old.iteration), int(new.iteration)], "resolve": [bool(old._resolve), bool(new._resolve)],
+                    "last_upd": [lu(old), lu(new)], "max_recompute": [old.max_recompute, new.max_recompute],
+                    "queue": [sorted(int(ts) for ts, _ in old.event_queue.queue), sorted(int(ts) for ts, _ in new.event_queue.queue)]}
+
         def run_resumable():
             """run(); after an INJECTED scheduler failure (Hooks.fail_at, each period once) the simulation is resumed:
             run() again on the same object, or to_json -> from_json -> update_scheduler -> run()"""
@@ -965,6 +1118,8 @@ def _one_run(case, vandal, plain=False):
                        "queue_empty": bool(cur.event_queue.empty()), "calls": list(algo.calls)}
                 if intr["how"] == "json":
                     rec["reload"] = reload()
+                elif intr["how"] == "copy":
+                    rec["clone"] = clone(f"abort:{k}")
                 interruptions.append(rec)
                 ask_outside(f"abort:{len(interruptions) - 1}")
 
@@ -974,6 +1129,9 @@ def _one_run(case, vandal, plain=False):
             ask_outside("pre")
         if apply_where(lambda e: e["at"] == "pre") and case.get("pre_query"):
             ask_outside("pre:edited")
+        clones = []
+        if cl == "pre":
+            clones.append(clone("pre"))
         err = None
         if sp:
             # a prefix driven by Simulator.step(): one call per schedule; stops at the first call that raises
@@ -995,6 +1153,8 @@ def _one_run(case, vandal, plain=False):
                                "queue_empty": bool(cur.event_queue.empty())}
                 if sp.get("json"):
                     after_steps["reload"] = reload()
+                if cl == "steps":
+                    clones.append(clone("steps"))
                 ask_outside("steps")
         if err is None:
             err = run_resumable()
@@ -1016,6 +1176,33 @@ def _one_run(case, vandal, plain=False):
         obs["final_infra"] = _truth(sim, ctx)["infra"]
         obs["edits_applied"] = list(ctx["applied"])
         obs["edit_errors"] = list(ctx["edit_errors"])
+        if cl or (intr and intr["how"] == "copy"):
+            obs["clones"] = clones + [a["clone"] for a in interruptions if a.get("clone")]
+        if "orig" in box and not later:
+            # the ORIGINAL of the (first) copy, left where it was when the copy was taken: completed now (the noise stream and
+            # the module-level occupancy log rewound to that moment), resumed in place after the failures still to be injected
+            og = box["orig"]
+            keep_k, keep_occ = ns["k"], _NET["occ"]
+            box["sim"], box["ctx"], box["views"] = og["sim"], og["ctx"], []
+            ns["k"], _NET["occ"] = og["noise"], [list(r) for r in og["occ"]]
+            left = set(og["pending"])
+            while True:
+                e2 = S.run_sim(og["sim"])
+                k2 = int(og["sim"].iteration)
+                if e2 != "SchedulerFailed" or k2 not in left:
+                    break
+                left.discard(k2)
+            oo = S.observe(og["sim"], og["ctx"], e2)
+            oo["noise_draws"] = ns["k"]
+            oo["final_infra"] = _truth(og["sim"], og["ctx"])["infra"]
+            oo["edits_applied"] = list(og["ctx"]["applied"])
+            oo["views"], oo["nviews"], oo["where"] = box["views"], og["nviews"], og["where"]
+            obs["orig"] = oo
+            ns["k"], _NET["occ"] = keep_k, keep_occ
+            box["sim"], box["ctx"], box["views"] = sim, ctx, views
+    if rnd_state is not None:
+        import random as _random
+        _random.setstate(rnd_state)
     obs["views"] = views
     obs["outside"] = outside
     obs["stops"] = stops
@@ -1028,7 +1215,7 @@ def _one_run(case, vandal, plain=False):
 
 def run_impl(case):
     obs = _one_run(case, vandal=True)
-    if _interrupt(case):
+    if _interrupt(case) or _clone(case):
         # the UNINTERRUPTED twin of an interrupted case (clean scheduler): the completed simulation must be this one
         obs["plain"] = _one_run(case, vandal=False, plain=True)
     if case.get("exhaustive"):
@@ -1052,8 +1239,17 @@ def model_mode(case, obs=None):
       None      oracle only: real algorithms; late staging; a run with ignored-type events / stages that
                 ABORTED (an abort freezes the matrix widths and the pending list in a state that depends on
                 `get_last_timestamp()` over the real queue, which the model does not carry)."""
-    if not S.is_modelled(case):
+    if not S.is_modelled(case) or _stoch(case):
         return None
+    if _noops(case):
+        # Sim.Cfg has no field for a user-queued UnplugEvent.  One that finds nobody to detach (session never arrived / already
+        # gone) is handed to the model as a RecomputeEvent of the same timestamp — both are `an event: recompute requested,
+        # network untouched`; they differ in the precedence inside the period and in `_last_schedule_update`, which the
+        # invocation of the same period overwrites (hence not with interruptions / step() prefixes / aborted runs).
+        # Early departures (the departure in the model's configuration would not be the one the scheduler is shown): oracle only.
+        if any(n["kind"] not in ("ghost", "after") or int(n["t"]) < 0 for n in _noops(case)) or _interrupt(case) or _step_prefix(case) \
+                or (obs is not None and obs.get("err") is not None):
+            return None
     if _interrupt(case) or _step_prefix(case):
         # `Sim.runResume` / `Sim.stepsThenRun` (AcnModel/SimResume.lean): the plain queue, one stage
         return "resume" if not _others(case) and not _splits(case) else None
@@ -1072,6 +1268,8 @@ def model_request(case, obs=None):
     req = S.model_request(case)
     if req is not None and _others(case):
         req["ignored"] = [int(o["t"]) for o in _others(case)]
+    if req is not None and _noops(case):
+        req["recomputes"] = req["recomputes"] + [[int(n["t"]), f"noop{i}"] for i, n in enumerate(_noops(case))]
     if req is not None and _interrupt(case):
         req["fail_at"] = sorted(set(int(k) for k in _interrupt(case)["at"]))
     if req is not None and _step_prefix(case):
@@ -1118,6 +1316,15 @@ def compare(case, obs, model):
         # the model's event_history / pending list hold the entries of the known types only (Sim.runI)
         o2["event_history"] = [e for e in obs["event_history"] if e[1] in KNOWN_TYPES]
         o2["pending"] = [e for e in obs["pending"] if e[1] in KNOWN_TYPES]
+    if _noops(case):
+        # (model_mode: only UnplugEvents that detach nobody get here; the model was handed RecomputeEvents in their place)
+        nk = {(int(n["t"]), n["session"]) for n in _noops(case)}
+
+        def as_rec(lst):
+            return sorted(([e[0], "Recompute", ""] if (e[1] == "Unplug" and (e[0], e[2]) in nk) else e for e in lst),
+                          key=lambda e: (e[0], S.PREC.get(e[1], 9)))
+        o2["event_history"] = as_rec(o2["event_history"])
+        o2["pending"] = sorted(as_rec(o2["pending"]))
     diffs = S.compare(case, o2, model)
     if _interrupt(case) or _step_prefix(case):
         # the states the aborted run() calls left (C09: a JSON round trip is the identity on them) and the state the
@@ -1245,6 +1452,7 @@ def expected_invocations(case, horizon):
         evs.add(s["arrival"])
         evs.add(s["departure"])
     evs.update(int(r) for r in case.get("recomputes", []))
+    evs.update(int(n["t"]) for n in _noops(case))      # an UnplugEvent that detaches nobody is an event of its period
     mr = case.get("max_recompute")
     out, last = [], None
     for t in range(horizon):
@@ -1271,6 +1479,7 @@ def reference_run(case):
         k = _stage_of(case, x["arrival"])
         known += [(x["arrival"], k), (x["departure"], k)]
     known += [(int(r), _stage_of(case, int(r))) for r in case.get("recomputes", [])]
+    known += [(int(n["t"]), _stage_of(case, int(n["t"]))) for n in _noops(case)]
     other = [(int(o["t"]), _stage_of(case, int(o["t"]))) for o in _others(case)]
     intr = _interrupt(case)
     fail = set(int(k) for k in intr["at"]) if intr else set()
@@ -1612,7 +1821,8 @@ def oracle(case, obs):
     if valid and special:
         _special_checks(case, obs, fails, inv, vts, inv1)
     elif valid:
-        ts = [s["departure"] for s in case["sessions"]] + [int(r) for r in case.get("recomputes", [])] + [int(o["t"]) for o in _others(case)]
+        ts = [s["departure"] for s in case["sessions"]] + [int(r) for r in case.get("recomputes", [])] + [int(o["t"]) for o in _others(case)] \
+            + [int(n["t"]) for n in _noops(case)]
         full = (max(ts) + 1) if ts else 0
         if obs["err"] is None:
             exp = expected_invocations(case, full)
@@ -1702,19 +1912,20 @@ def oracle(case, obs):
                     break
 
     # --- the views against the FINAL trajectory and the layout (independent of the same-moment snapshot)
-    if valid and obs["err"] is None:
+    eff_sessions = _effective_sessions(case)      # (with the departures that actually take place: user-queued early UnplugEvents)
+    if valid and obs["err"] is None and not _stoch(case):
         sts = [st["id"] for st in case["stations"]]
         per_h = float(I.num(case["period"])) / 60
         for v in views:
             t = v["t"]
             want_conn = []
             for st in sts:
-                here = [s["session"] for s in case["sessions"] if s["station"] == st and s["arrival"] <= t < s["departure"]]
+                here = [s["session"] for s in eff_sessions if s["station"] == st and s["arrival"] <= t < s["departure"]]
                 want_conn.append(here[0] if here else None)
             if v["truth"]["connected"] != want_conn:
                 fails.append({"kind": "before_events", "detail": f"period {t}: connected at call time {v['truth']['connected']}, sessions with arrival<=t<departure {want_conn}"})
             seen = {s["session"]: s for s in v["sessions"]}
-            for s in case["sessions"]:
+            for s in eff_sessions:
                 if not (s["arrival"] <= t < s["departure"]):
                     if s["session"] in seen:
                         fails.append({"kind": "view_mismatch:sessions", "detail": f"period {t}: session {s['session']} handed out although not connected"})
@@ -1767,7 +1978,50 @@ def oracle(case, obs):
                 fails.append({"kind": "isolation_broken", "detail": f"network {k} after the run {obs['final_infra'][k]}, built with {want}"
                               + (f" and edited by the entries {obs.get('edits_applied')} of net_edits" if _edits(case) else "")})
                 break
+    _copy_checks(case, obs, fails)
     return fails
+
+
+TRAJ_KEYS = ("err", "iter", "queue_empty", "pending", "resolve", "last_upd", "event_history", "ev_history", "invoked", "occ_final", "occ",
+             "pilots", "rates", "peak", "evs", "evse_pilot", "noise_draws", "final_infra", "edits_applied")
+
+
+def _copy_checks(case, obs, fails):
+    """copy.deepcopy(simulator), the run continued on the COPY: the copy starts in the state of the original and shares nothing
+    with it; the original, completed AFTER the copy has finished, goes through the same history with the same views (so neither
+    disturbed the other); a simulator copied before / after a step() prefix and run == the identically built simulator that was
+    never copied (an interrupted one: `_special_checks`, against the uninterrupted twin)"""
+    for side, o in (("", obs), ("[clean run] ", obs["clean"])):
+        for c in o.get("clones") or []:
+            if c["same_object"]:
+                fails.append({"kind": "copy_shares_state", "detail": f"{side}deepcopy(simulator) at iteration {c['iter'][0]}: the copy, its network, scheduler, "
+                              "event queue or one of its EVs IS the original's"})
+            for k in ("iter", "resolve", "last_upd", "max_recompute", "queue"):
+                if c[k][0] != c[k][1]:
+                    fails.append({"kind": "copy_state_lost", "detail": f"{side}deepcopy(simulator): {k} is {c[k][0]!r} in the original and {c[k][1]!r} in the copy"})
+        og = o.get("orig")
+        if og is None:
+            continue
+        bad = next((k for k in TRAJ_KEYS if not _same(S_json(o.get(k)), S_json(og.get(k)))), None)
+        if bad is not None:
+            fails.append({"kind": "copy_differs", "detail": f"{side}simulator copied at `{og['where']}`; {bad}: the copy, run to the end, {_short(o.get(bad))}; "
+                          f"the original, completed afterwards, {_short(og.get(bad))}"})
+        a, b = o["views"][og["nviews"]:], og["views"]
+        if not _same(S_json(a), S_json(b)):
+            k = next((i for i, (x, y) in enumerate(zip(a, b)) if not _same(S_json(x), S_json(y))), min(len(a), len(b)))
+            fails.append({"kind": "copy_differs", "detail": f"{side}simulator copied at `{og['where']}`: view #{k} after the copy was taken: the copy's scheduler saw "
+                          f"{_short(a[k:k + 1])}, the original's {_short(b[k:k + 1])}"})
+    pl = obs.get("plain")
+    if pl is not None and _clone(case) and not _interrupt(case):
+        cv = obs["clean"]
+        bad = next((k for k in TRAJ_KEYS + ("stops", "step_results", "after_steps") if not _same(S_json(cv.get(k)), S_json(pl.get(k)))), None)
+        if bad is not None:
+            fails.append({"kind": "copy_differs", "detail": f"simulator copied at `{_clone(case)}`; {bad}: the copy {_short(cv.get(bad))}, an identically built simulator "
+                          f"that was never copied {_short(pl.get(bad))}"})
+        elif not _same(S_json(cv["views"]), S_json(pl["views"])):
+            k = next((i for i, (x, y) in enumerate(zip(cv["views"], pl["views"])) if not _same(S_json(x), S_json(y))), min(len(cv["views"]), len(pl["views"])))
+            fails.append({"kind": "copy_differs", "detail": f"simulator copied at `{_clone(case)}`: view #{k}: the copy's scheduler saw {_short(cv['views'][k:k + 1])}, that of "
+                          f"an identically built simulator that was never copied {_short(pl['views'][k:k + 1])}"})
 
 
 def S_json(x):
@@ -1910,6 +2164,33 @@ def corpus():
                 if n == 2:
                     c["interrupt"] = {"at": [6 if mr is None else 5], "how": "json" if js else "rerun"}
                 out.append(c)
+    # EVENTS THAT CHANGE NOTHING.  The Lean example (session x on S0 [1,6), recompute event at 9); max_recompute None / 7: the timer
+    # is never the reason.  (a) x leaves early, in period 3 (UnplugEvent queued by the user): the simulator's own UnplugEvent at
+    # 6 finds S0 empty; (b) the same with y taking S0 in period 4: the UnplugEvent of x at 6 finds y; (c) an UnplugEvent for an
+    # EV that never arrived (period 4, S1) and a second one for x after it has left (period 8); (d) all of it, added with add_event
+    base = {"stations": two, "constraint": {"limit": 64.0}, "recomputes": [9], "period": 5, "noise": [], "sched": sched}
+    for mr in (None, 7, 3):
+        for when in ("ctor", "added"):
+            out.append(dict(base, sessions=[_s("x", "S0", 1, 6)], max_recompute=mr, noops=[{"kind": "early", "session": "x", "t": 3, "when": when}]))
+            out.append(dict(base, sessions=[_s("x", "S0", 1, 6), _s("y", "S0", 4, 8)], max_recompute=mr, pre_query=when == "added",
+                            noops=[{"kind": "early", "session": "x", "t": 3, "when": when}]))
+            out.append(dict(base, sessions=[_s("x", "S0", 1, 6)], max_recompute=mr,
+                            noops=[{"kind": "ghost", "session": "ghost", "station": "S1", "t": 4, "when": when}, {"kind": "after", "session": "x", "t": 8, "when": when}]))
+        out.append(dict(base, sessions=[_s("x", "S0", 1, 6), _s("y", "S0", 3, 8)], max_recompute=mr, vandal="methods",
+                        noops=[{"kind": "early", "session": "x", "t": 3, "when": "added"}, {"kind": "early", "session": "x", "t": 4, "when": "ctor"},
+                               {"kind": "ghost", "session": "ghost", "station": "S0", "t": 11, "when": "added"}]))
+        # contrib StochasticNetwork, one station: b leaves in period 3 while still WAITING (no station changes), c is swapped in at 6
+        out.append({"stations": two[:1], "constraint": {"limit": 64.0}, "sessions": [_s("a", "S0", 0, 6), _s("b", "S0", 1, 3), _s("c", "S0", 2, 9)],
+                    "recomputes": [], "period": 5, "max_recompute": mr, "noise": [], "network": "stochastic",
+                    "sched": {"type": "scripted", "default": [["S0", [16.0]]], "script": []}})
+    # COPIED SIMULATORS: deepcopy before run(); after a step() prefix; after every abort (the scheduler raised)
+    for mr in (None, 1, 2, 3):
+        out.append(dict(base, sessions=[_s("x", "S0", 1, 6)], max_recompute=mr, clone="pre", pre_query=mr == 2))
+        out.append(dict(base, sessions=[_s("x", "S0", 1, 6), _s("y", "S1", 3, 8)], recomputes=[11], max_recompute=mr, clone="steps",
+                        step_prefix={"scheds": [st1, [["S0", [16.0, 16.0]]]], "json": mr == 3}))
+        for at in ([1], [3], [4, 9]):
+            out.append(dict(base, sessions=[_s("x", "S0", 1, 6)], max_recompute=mr, interrupt={"at": at, "how": "copy"},
+                            vandal="methods" if (len(at) + (mr or 0)) % 2 else None))
     return out
 
 
@@ -2159,6 +2440,63 @@ def _add_edits(rng, case, kinds=None):
     return case
 
 
+def _add_noops(rng, case):
+    """1-3 UnplugEvents queued by the user that detach nobody, or that make the simulator's own UnplugEvent (at ev.departure)
+    detach nobody: early departures (optionally with ANOTHER session of the case taking the station before the first one's
+    nominal departure), a second unplug for a session that has left, an unplug for an EV that never arrived.  Mostly in periods
+    without any other event, with max_recompute None or 7 in 3 of 4 cases (the event is then the ONLY reason for the invocation)."""
+    busy = set(_known_ts(case))
+    hi = max(_known_ts(case, with_others=True) + [3])
+    free = [t for t in range(0, hi + 3) if t not in busy]
+    out, taken = [], set()
+    for _ in range(rng.choice([1, 1, 2, 3])):
+        q = rng.random()
+        when = "ctor" if rng.random() < 0.6 else "added"
+        long = [x for x in case["sessions"] if x["departure"] - x["arrival"] >= 2 and x["session"] not in taken]
+        if q < 0.5 and long:
+            x = rng.choice(long)
+            cand = list(range(x["arrival"] + 1, x["departure"]))
+            quiet = [t for t in cand if t not in busy]
+            t = rng.choice(quiet if quiet and rng.random() < 0.7 else cand)
+            taken.add(x["session"])
+            out.append({"kind": "early", "session": x["session"], "t": t, "when": when})
+            if rng.random() < 0.4:
+                a, d = rng.randint(t, x["departure"] - 1), x["departure"] + rng.choice([1, 2, 3])
+                eff = _effective_sessions(dict(case, noops=out))
+                if not any(y["station"] == x["station"] and y["session"] != x["session"] and not (y["departure"] <= a or d <= y["arrival"]) for y in eff):
+                    case["sessions"].append({"session": f"z{len(out)}", "station": x["station"], "arrival": a, "departure": d,
+                                             "requested": round(rng.uniform(0.05, 12), 3), "batt": _b(), "est": None})
+                    taken.add(f"z{len(out)}")
+        elif q < 0.7 and case["sessions"]:
+            x = rng.choice(case["sessions"])
+            out.append({"kind": "after", "session": x["session"], "t": x["departure"] + rng.choice([1, 1, 2, 4]), "when": when})
+        else:
+            t = rng.choice(free) if free and rng.random() < 0.75 else rng.randint(0, hi)
+            t = max(t, 1) if _step_prefix(case) else t
+            out.append({"kind": "ghost", "session": f"ghost{len(out)}", "station": rng.choice(case["stations"])["id"], "t": t, "when": when})
+    case["noops"] = out
+    if rng.random() < 0.75:
+        case["max_recompute"] = rng.choice([None, None, 7])
+    return case
+
+
+def stoch_case(rng):
+    """contrib StochasticNetwork, 1-2 stations, 3-6 sessions that overlap in time: the surplus WAITS; some leave while still
+    waiting (their UnplugEvent changes no station), some are swapped in when a station is vacated"""
+    ns = rng.choice([1, 1, 2])
+    stations = [{"id": f"S{i}", "kind": {"t": "cont", "min": 0, "max": 32}, "V": 208, "phase": [0, 30][i]} for i in range(ns)]
+    sessions = []
+    for i in range(rng.randint(3, 6)):
+        a = rng.randint(0, 5)
+        sessions.append({"session": f"q{i}", "station": rng.choice(stations)["id"], "arrival": a, "departure": a + rng.choice([1, 2, 3, 5, 8]),
+                         "requested": rng.choice([0.05, 0.4, 3.0, 20.0]), "batt": _b(), "est": None})
+    hi = max(x["departure"] for x in sessions)
+    return {"stations": stations, "constraint": {"limit": 64.0} if rng.random() < 0.6 else None, "sessions": sessions,
+            "recomputes": [rng.randint(0, hi + 2)] if rng.random() < 0.3 else [], "period": 5, "max_recompute": rng.choice([None, None, 7, 2]),
+            "noise": [], "network": "stochastic", "pre_query": rng.random() < 0.3,
+            "sched": {"type": "scripted", "default": [[st["id"], [rng.choice([8.0, 16.0, 32.0])]] for st in stations], "script": []}}
+
+
 def _retime(rng, case):
     """C05's extra dimensions on top of a simcase scenario."""
     r = rng.random()
@@ -2345,6 +2683,9 @@ def generate(rng, n, tier):
             c = S.gen_case(rng, malformed=True, max_sessions=12)
         elif r == 13:
             c = _late(rng, S.gen_case(rng, max_sessions=8))
+        elif r == 16 and (i // 25) % 2 == 1:
+            out.append(stoch_case(rng))
+            continue
         elif r in (2, 16):
             out.append(boundary_case(rng))
             continue
@@ -2364,10 +2705,17 @@ def generate(rng, n, tier):
             c = _stage(rng, c, late=True)
         if r in (3, 10, 15, 17) and not c.get("malformed") and not _others(c) and not _splits(c):
             c = _add_step_prefix(rng, c)
+        if r in (5, 8, 11, 14, 17, 21) and not c.get("malformed") and not _splits(c):
+            c = _add_noops(rng, c)      # events that change nothing (a user-queued UnplugEvent / the automatic one after it)
         if r in (0, 3, 4, 8, 12, 15, 18, 19, 21):
             c = _add_edits(rng, c)          # LAST: the moments of the edits depend on the staging
         if r in (1, 4, 6, 8, 10, 14, 20, 23) and c.get("malformed") in (None, "late"):
             c = _add_interrupt(rng, c)
+        # COPIED simulators: deepcopy before the first run(), after the step() prefix, after every abort
+        if r in (1, 4, 8, 20) and _interrupt(c):
+            c["interrupt"]["how"] = "copy"
+        elif r in (10, 15, 18, 23) and not _splits(c):
+            c["clone"] = "steps" if _step_prefix(c) else "pre"
         if r % 3 == 1:
             c["vandal"] = "methods"
         out.append(c)
@@ -2385,7 +2733,8 @@ def nontrivial(case, obs):
     if not is_valid(case) or obs.get("err") is not None:
         return False
     inv = obs["invoked"]
-    evs = {s["arrival"] for s in case["sessions"]} | {s["departure"] for s in case["sessions"]} | set(case.get("recomputes", []))
+    evs = {s["arrival"] for s in case["sessions"]} | {s["departure"] for s in case["sessions"]} | set(case.get("recomputes", [])) \
+        | {int(n_["t"]) for n_ in _noops(case)}
     timer_only = any(t not in evs for t in inv)
     skipped = obs["iter"] > len(inv)
     return len(inv) >= 3 and (timer_only or skipped) and any(v["sessions"] for v in obs["views"])
@@ -2395,6 +2744,7 @@ def features(case, obs):
     inv = obs.get("invoked", [])
     views = obs.get("views", [])
     evs = {s["arrival"] for s in case["sessions"]} | {s["departure"] for s in case["sessions"]} | set(case.get("recomputes", []))
+    evs_all = evs | {int(n_["t"]) for n_ in _noops(case)}
     n = len(case["sessions"])
     arr_of = {s["session"]: s["arrival"] for s in case["sessions"]}
     f = [f"max_recompute={case.get('max_recompute')}", f"sched={case['sched']['type']}", f"err={obs.get('err')}",
@@ -2403,7 +2753,7 @@ def features(case, obs):
          f"recomputes={min(len(case.get('recomputes', [])), 4)}",
          "invocations=" + ("0" if not inv else "1-3" if len(inv) <= 3 else "4-10" if len(inv) <= 10 else "11+"),
          "valid_layout=" + str(S.is_valid_layout(case))]
-    if any(t not in evs for t in inv):
+    if any(t not in evs_all for t in inv):
         f.append("invocation_by_max_recompute_only")
     if obs.get("iter", 0) > len(inv):
         f.append("periods_without_invocation")
@@ -2531,6 +2881,37 @@ def features(case, obs):
         a = obs.get("after_steps")
         if a:
             f.append("run_after_steps_starts_with_" + ("pending_recompute" if a["resolve"] else "no_pending_recompute"))
+    if _noops(case):
+        f.extend(sorted({f"noop_unplug={n['kind']}" for n in _noops(case)} | {f"noop_unplug_queued={n.get('when', 'ctor')}" for n in _noops(case)}))
+        mr_ = case.get("max_recompute")
+        others_ts = evs | {int(o["t"]) for o in oth}
+        for n in _noops(case):
+            if int(n["t"]) not in others_ts and int(n["t"]) in inv and mr_ in (None, 7):
+                f.append("noop_unplug_alone_in_period_is_the_only_reason_for_invocation")
+        eff = {x["session"]: x for x in _effective_sessions(case)}
+        occ = obs.get("occ", [])
+        sts_ = [st["id"] for st in case["stations"]]
+        for x in case["sessions"]:
+            if eff[x["session"]]["departure"] < x["departure"] and x["departure"] < len(occ) and x["station"] in sts_:
+                who = occ[x["departure"]][sts_.index(x["station"])]
+                f.append("automatic_unplug_finds_" + ("station_empty" if who is None else "another_ev"))
+                if x["departure"] in inv and not any(t == x["departure"] for y in case["sessions"] if y is not x for t in (y["arrival"], y["departure"])) \
+                        and x["departure"] not in [int(r) for r in case.get("recomputes", [])] and mr_ in (None, 7):
+                    f.append("automatic_unplug_that_detaches_nobody_is_the_only_reason_for_invocation")
+    if _stoch(case):
+        f.append("stochastic_network")
+        ever = {x for row in obs.get("occ", []) for x in row if x is not None}
+        if any(x["session"] not in ever for x in case["sessions"]):
+            f.append("waiting_ev_departs_without_ever_being_connected")
+        if any(x["session"] in ever and x["arrival"] < min(i for i, row in enumerate(obs["occ"]) if x["session"] in row) for x in case["sessions"]):
+            f.append("waiting_ev_swapped_in")
+    if _clone(case) or (intr and intr["how"] == "copy"):
+        f.append("copied_simulator=" + (_clone(case) or "abort"))
+        f.append(f"copies_taken={min(len(obs.get('clones') or []), 3)}")
+        if obs.get("orig") is not None:
+            f.append("original_completed_after_the_copy")
+            if obs["orig"]["nviews"] > 0:
+                f.append("copied_simulator_partly_run")
     if case.get("vandal"):
         f.append(f"vandal={case['vandal']}")
     if any(v.get("active_evs") for v in views):
@@ -2552,7 +2933,7 @@ def shrink(case, kind):
     changed = True
     while changed:
         changed = False
-        for key in ("splits", "pre_query", "interrupt", "step_prefix", "vandal"):
+        for key in ("splits", "pre_query", "interrupt", "step_prefix", "vandal", "clone"):
             if cur.get(key):
                 c2 = copy.deepcopy(cur)
                 c2.pop(key)
@@ -2567,7 +2948,7 @@ def shrink(case, kind):
                     cur, changed = c2, True
                 else:
                     i += 1
-        for key in ("net_edits", "sessions", "recomputes", "others", "extra_constraints"):
+        for key in ("net_edits", "noops", "sessions", "recomputes", "others", "extra_constraints"):
             i = 0
             while i < len(cur.get(key, [])):
                 c2 = copy.deepcopy(cur)
